@@ -337,7 +337,7 @@ func TestVerifC15Histories(t *testing.T) {
 	m := vk.New(t, "C15", "seeded random histories of put/del (delivered or missed), pump, reload, attach, broken watch stream over 1-2 service keys, 3-7 keys and 2-4 values per key (values shared); "+c15Rule)
 	defer m.Done()
 	defer c15Wall(m, time.Now())
-	c15RunRandom(t, m, "hist", vk.N(2000, 60000), false)
+	c15RunRandom(t, m, "hist", vk.N(2000, 20000), false)
 }
 
 // TestVerifC15Reconnect: the same histories, but the reload is started by the
@@ -349,7 +349,7 @@ func TestVerifC15Reconnect(t *testing.T) {
 	m := vk.New(t, "C15", "as Histories, with connection losses/recoveries fed to stateWatcher.updateState (scripted etcdConn): a Ready after TransientFailure/Shutdown must start a reload; "+c15Rule)
 	defer m.Done()
 	defer c15Wall(m, time.Now())
-	c15RunRandom(t, m, "reconnect", vk.N(600, 15000), true)
+	c15RunRandom(t, m, "reconnect", vk.N(600, 6000), true)
 }
 
 // TestVerifC15GetRetry: the snapshot Get fails once during a reload (load()
